@@ -16,7 +16,8 @@
 #include "PhQ/Unit/Energy.hpp"
 #include "PhQ/ConstitutiveModel.hpp"
 using namespace PhQ;
-static const char* CLS[10] = {"random_bytes", "digits", "decimal", "scientific", "huge_exponent", "inf_nan", "hex_float", "whitespace_prefix", "embedded_nul", "non_ascii"};
+static const int NCLS = 12;
+static const char* CLS[NCLS] = {"random_bytes", "digits", "decimal", "scientific", "huge_exponent", "inf_nan", "hex_float", "whitespace_prefix", "embedded_nul", "non_ascii", "blank", "padded"};
 static std::string gen(std::mt19937_64& g, int cls) {
   std::string s; auto digits = [&](int n) { for (int i = 0; i < n; i++) s += (char)('0' + g() % 10); };
   switch (cls) {
@@ -29,6 +30,8 @@ static std::string gen(std::mt19937_64& g, int cls) {
     case 6: s = (g() & 1) ? "0x" : "-0X"; for (int i = 0, n = (int)(g() % 18); i < n; i++) s += "0123456789abcdefABCDEF"[g() % 22]; if (g() & 1) { s += '.'; s += "0123456789abcdef"[g() % 16]; } if (g() & 1) { s += 'p'; if (g() & 1) s += '-'; digits(1 + (int)(g() % 6)); } break;
     case 7: { const char* w[] = {" ", "\t", "\n", "  \r\n", "\v\f"}; s = w[g() % 5]; s += "12.5"; if (g() & 1) s += " m"; } break;
     case 8: s = "1"; s += '\0'; s += "2"; if (g() & 1) { s = std::string(1, '\0') + s; } break;
+    case 10: { int n = (int)(g() % 6); for (int i = 0; i < n; i++) s += " \t\n\r\v\f"[g() % 6]; } break;     // empty or whitespace only
+    case 11: { int a = (int)(g() % 3), b = (int)(g() % 3); for (int i = 0; i < a; i++) s += " \t\n\r"[g() % 4]; const char* m[] = {"m", "kg", "K", "J", "x", "1.5", "-2e3", ""}; s += m[g() % 8]; for (int i = 0; i < b; i++) s += " \t\n\r"[g() % 4]; } break;   // a token padded with whitespace on either side
     default: { const char* u[] = {"\xCE\xBCs", "1\xC2\xB7" "5", "\xE2\x88\x92" "3", "\xEF\xBC\x91\xEF\xBC\x92", "3,14", "\xFF\xFE" "1"}; s = u[g() % 6]; } break; }
   return s;
 }
@@ -38,22 +41,22 @@ template <> double oracle_parse<double>(const char* s, char** end) { return strt
 template <> long double oracle_parse<long double>(const char* s, char** end) { return strtold(s, end); }
 template <class T> static void numbers(const char* fn, uint64_t seed, int n) {
   std::mt19937_64 g(seed);
-  for (int cls = 0; cls < 10; cls++) { long val = 0, none = 0, threw = 0, differs = 0; std::string wit;
+  for (int cls = 0; cls < NCLS; cls++) { long val = 0, none = 0, threw = 0, differs = 0; std::string wit;
     for (int i = 0; i < n; i++) { std::string s = gen(g, cls); bool has = false; T v = 0;
-      try { auto r = ParseNumber<T>(s); has = r.has_value(); if (has) v = *r; } catch (...) { threw++; continue; }
+      try { auto r = ParseNumber<T>(s); has = r.has_value(); if (has) v = *r; } catch (...) { if (!threw) wit = s; threw++; continue; }
       // oracle: the longest valid prefix converts and the result is in range  (what std::stof/stod/stold define)
       errno = 0; char* end = nullptr; T w = oracle_parse<T>(s.c_str(), &end); bool want = end != s.c_str() && errno != ERANGE;
-      if (has != want || (has && std::memcmp(&v, &w, sizeof(T) > 10 ? 10 : sizeof(T)) != 0 && !(v != v && w != w))) { if (!differs) wit = s; differs++; }
+      if (has != want || (has && std::memcmp(&v, &w, sizeof(T) > 10 ? 10 : sizeof(T)) != 0 && !(v != v && w != w))) { if (!differs && !threw) wit = s; differs++; }
       if (has) val++; else none++; }
     std::string w; char b[8]; for (unsigned char c : wit) { snprintf(b, 8, "%02x", c); w += b; }
     printf("{\"e\":\"ParseClass\",\"fn\":\"%s\",\"cls\":\"%s\",\"n\":%d,\"value\":%ld,\"nothing\":%ld,\"threw\":%ld,\"differs\":%ld,\"witness_hex\":\"%s\"}\n", fn, CLS[cls], n, val, none, threw, differs, w.c_str()); }
 }
 template <class E> static void enums(const char* fn, uint64_t seed, int n) {
   std::mt19937_64 g(seed); std::vector<std::string> keys; for (auto& kv : Internal::Spellings<E>) keys.emplace_back(kv.first);
-  for (int cls = 0; cls < 10; cls++) { long val = 0, none = 0, threw = 0, differs = 0; std::string wit;
+  for (int cls = 0; cls < NCLS; cls++) { long val = 0, none = 0, threw = 0, differs = 0; std::string wit;
     for (int i = 0; i < n; i++) { std::string s = (i % 5 == 0 && !keys.empty()) ? keys[g() % keys.size()] + gen(g, cls).substr(0, g() % 3) : gen(g, cls); bool has = false;
-      try { auto r = ParseEnumeration<E>(std::string_view(s)); has = r.has_value(); } catch (...) { threw++; continue; }
-      bool want = false; for (auto& k : keys) if (k == s) want = true; if (has != want) { if (!differs) wit = s; differs++; } if (has) val++; else none++; }
+      try { auto r = ParseEnumeration<E>(std::string_view(s)); has = r.has_value(); } catch (...) { if (!threw) wit = s; threw++; continue; }
+      bool want = false; for (auto& k : keys) if (k == s) want = true; if (has != want) { if (!differs && !threw) wit = s; differs++; } if (has) val++; else none++; }
     std::string w; char b[8]; for (unsigned char c : wit) { snprintf(b, 8, "%02x", c); w += b; }
     printf("{\"e\":\"ParseClass\",\"fn\":\"%s\",\"cls\":\"%s\",\"n\":%d,\"value\":%ld,\"nothing\":%ld,\"threw\":%ld,\"differs\":%ld,\"witness_hex\":\"%s\"}\n", fn, CLS[cls], n, val, none, threw, differs, w.c_str()); }
 }
